@@ -39,6 +39,18 @@ template<typename It> bool srcexprs_cmp(const It& a, const It& b)
 {
     return (a == b) | (a != b) | (a < b) | (a <= b) | (a > b) | (a >= b);
 }
+template<typename T> struct opt : sbepp::detail::optional_base<T, opt<T>>
+{
+    using sbepp::detail::optional_base<T, opt<T>>::optional_base;
+    static T min_value() noexcept;      // declared only: opaque values of type T for the translator
+    static T max_value() noexcept;
+    static T null_value() noexcept;
+};
+template<typename O> bool srcexprs_optcmp(const O& a, const O& b)
+{
+    return (a == b) | (a != b) | (a < b) | (a <= b) | (a > b) | (a >= b) | a.has_value() | a.in_range()
+           | static_cast<bool>(a) | (a.value() == *b);
+}
 inline void srcexprs_size_check(const char* begin, const char* end, std::size_t offset, std::size_t size)
 {
     SBEPP_SIZE_CHECK(begin, end, offset, size);
@@ -57,6 +69,9 @@ def _tu_text():
             it = "sbepp::detail::random_access_iterator<char, srcexprs::entry, %s, %s, %s>" % (STD[b], STD[SGN[s]], STD[s])
             lines.append("template class %s;" % it)
             lines.append("template bool srcexprs::srcexprs_cmp(const %s&, const %s&);" % (it, it))
+    for t in UNS + [SGN[u] for u in UNS]:
+        lines.append("template bool srcexprs::srcexprs_optcmp(const srcexprs::opt<%s>&, const srcexprs::opt<%s>&);"
+                     % (STD[t], STD[t]))
     return TU % "\n".join(lines)
 
 
@@ -137,11 +152,91 @@ def _z(v):
     return "(%d)" % v
 
 
+# --- inlining of calls to small functions of the same class (optional_base): context of the function being expanded
+CTX = {"this": "", "obj": {}, "subst": {}, "decls": {}, "depth": 0}
+
+
+def _strip(n):
+    while n["kind"] in PASS or (n["kind"] in CASTS and n.get("castKind") in
+                                ("NoOp", "LValueToRValue", "UncheckedDerivedToBase", "DerivedToBase")):
+        n = n["inner"][-1]
+    return n
+
+
+def _object_prefix(n):
+    """the object an expression of class type designates, as a prefix for its members"""
+    n = _strip(n)
+    if n["kind"] == "CXXThisExpr":
+        return CTX["this"]
+    if n["kind"] == "UnaryOperator" and n.get("opcode") == "*":
+        return _object_prefix(n["inner"][0])
+    if n["kind"] == "DeclRefExpr":
+        nm = n["referencedDecl"]["name"]
+        return CTX["obj"].get(nm, nm + ".")
+    raise TranslationError("object expression %s" % n["kind"])
+
+
+def _is_class(n):
+    q = _ty(n)
+    return q not in ITY and not q.endswith("*")
+
+
+def _inline(decl_id, name, obj_prefix, args):
+    d = CTX["decls"].get(decl_id)
+    if d is None:
+        raise TranslationError("call of %s: definition not found" % name)
+    params = [c for c in d.get("inner", []) if c.get("kind") == "ParmVarDecl"]
+    body = [c for c in d.get("inner", []) if c.get("kind") == "CompoundStmt"]
+    if not body:
+        if not params and _ty(d).split("(")[0].strip() in ITY:
+            return '(EVar "%s()")' % name               # declared only: an opaque value of its return type
+        raise TranslationError("call of %s: no body" % name)
+    if len(params) != len(args):
+        raise TranslationError("call of %s: %d arguments" % (name, len(args)))
+    if CTX["depth"] > 12:
+        raise TranslationError("call of %s: inlining too deep" % name)
+    obj, subst = {}, {}
+    for pd, a in zip(params, args):
+        if _is_class(pd):
+            obj[pd["name"]] = _object_prefix(a)
+        else:
+            subst[pd["name"]] = expr(a)
+    stmts = [c for c in body[0].get("inner", []) if c.get("kind") != "NullStmt"]
+    if len(stmts) != 1 or stmts[0].get("kind") != "ReturnStmt":
+        raise TranslationError("call of %s: body is not a single return statement" % name)
+    saved = dict(CTX)
+    CTX.update({"this": obj_prefix if obj_prefix is not None else CTX["this"], "obj": obj, "subst": subst,
+                "depth": CTX["depth"] + 1})
+    try:
+        return expr(stmts[0]["inner"][0])
+    finally:
+        CTX.update(saved)
+
+
 def expr(n):
     k = n["kind"]
     inner = n.get("inner", [])
     if k in PASS:
         return expr(inner[0])
+    if k in CASTS and n.get("castKind") == "UserDefinedConversion":
+        return expr(inner[-1])
+    if k == "CXXMemberCallExpr":
+        callee = _strip(inner[0])
+        if callee["kind"] != "MemberExpr":
+            raise TranslationError("member call through %s" % callee["kind"])
+        return _inline(callee.get("referencedMemberDecl"), callee.get("name"), _object_prefix(callee["inner"][0]),
+                       inner[1:])
+    if k == "CXXOperatorCallExpr":
+        ref = _find(inner[0], lambda x: x["kind"] == "DeclRefExpr", [])
+        if not ref:
+            raise TranslationError("operator call without a callee")
+        rd = ref[0]["referencedDecl"]
+        d = CTX["decls"].get(rd.get("id"))
+        if d is not None and d.get("kind") == "CXXMethodDecl":
+            return _inline(rd.get("id"), rd.get("name"), _object_prefix(inner[1]), inner[2:])
+        return _inline(rd.get("id"), rd.get("name"), None, inner[1:])
+    if k == "UnaryOperator" and n.get("opcode") == "!":
+        return "(ECond %s (ELit (0)) (ELit (1)))" % expr(inner[0])
     if k in CASTS:
         ck = n.get("castKind")
         if ck in ("LValueToRValue", "NoOp"):
@@ -161,7 +256,13 @@ def expr(n):
     if k == "CXXBoolLiteralExpr":
         return "(ELit %s)" % ("(1)" if n.get("value") else "(0)")
     if k == "DeclRefExpr":
-        return '(EVar "%s")' % n["referencedDecl"]["name"]
+        nm = n["referencedDecl"]["name"]
+        if nm in CTX["subst"]:
+            return CTX["subst"][nm]
+        return '(EVar "%s")' % nm
+    if k == "MemberExpr" and inner and _strip(inner[0])["kind"] in ("CXXThisExpr", "UnaryOperator", "DeclRefExpr") \
+            and (CTX["this"] or CTX["obj"]):
+        return '(EVar "%s%s")' % (_object_prefix(inner[0]), n["name"])
     if k == "MemberExpr":
         if not inner or inner[0]["kind"] not in ("CXXThisExpr",) and not (
                 inner[0]["kind"] == "ImplicitCastExpr" and inner[0]["inner"][0]["kind"] == "CXXThisExpr"):
@@ -215,6 +316,8 @@ def expr(n):
         name = callee[0]["referencedDecl"]["name"] if callee else "?"
         if name in BSWAP and len(inner) == 2:
             return "(EBswap %d %s)" % (BSWAP[name], expr(inner[1]))
+        if callee and callee[0]["referencedDecl"].get("id") in CTX["decls"]:
+            return _inline(callee[0]["referencedDecl"]["id"], name, None, inner[1:])
         if name in INLINE:
             params, body = INLINE[name]
             if len(params) != len(inner) - 1:
@@ -439,6 +542,54 @@ def translate(repo):
         defs.append(("src_byteswap_" + w, effects(f)))
     if seen != {"U16", "U32", "U64"}:
         raise TranslationError("byteswap: overloads found for %s only" % sorted(seen))
+    # --- optional_base<T, Derived>: has_value, in_range, operator bool and the six comparison operators (pre-C++20 set),
+    #     for the eight integer types; Derived::min/max/null_value() are opaque values
+    objs = _dump(repo, "opt")        # one dump for optional_base and srcexprs::opt: declaration ids are per clang run
+    specs = []
+    for o in objs:
+        _find(o, lambda n: n["kind"] == "ClassTemplateSpecializationDecl" and n.get("name") == "optional_base" and
+              any(c.get("kind") in ("CXXMethodDecl", "FriendDecl") for c in n.get("inner", [])), specs)
+    dobjs = []
+    for o in objs:
+        _find(o, lambda n: n["kind"] == "ClassTemplateSpecializationDecl" and n.get("name") == "opt" and
+              n.get("inner"), dobjs)
+    seen = set()
+    for sp in specs:
+        raw = _targs_raw(sp)
+        ta = _targs(sp)
+        if len(ta) != 2 or ta[0] not in STD or "srcexprs::opt" not in raw[1] or ta[0] in seen:
+            continue
+        # the int8_t instantiation also appears as `char`-like types: keep the first of each
+        decls, fr = {}, {}
+        for c in sp.get("inner", []):
+            if c.get("kind") in ("CXXMethodDecl", "CXXConversionDecl") and c.get("id"):
+                decls[c["id"]] = c
+            if c.get("kind") == "FriendDecl":
+                for f in c.get("inner", []):
+                    if f.get("kind") == "FunctionDecl" and f.get("id"):
+                        decls[f["id"]] = f
+                        if f.get("name") in CMPNAMES and any(x.get("kind") == "CompoundStmt" for x in f.get("inner", [])):
+                            fr[f["name"]] = f
+        # Derived's static members (declared only) are referenced by id from inside the bodies
+        for dsp in dobjs:
+            for c in dsp.get("inner", []):
+                if c.get("kind") == "CXXMethodDecl" and c.get("id"):
+                    decls[c["id"]] = c
+        meth = {m.get("name"): m for m in sp.get("inner", []) if m.get("kind") in ("CXXMethodDecl", "CXXConversionDecl")
+                and any(x.get("kind") == "CompoundStmt" for x in m.get("inner", []))}
+        if set(fr) != set(CMPNAMES) or "has_value" not in meth or "in_range" not in meth:
+            continue
+        CTX.update({"this": "", "obj": {}, "subst": {}, "decls": decls, "depth": 0})
+        try:
+            defs.append(("src_opt_has_value_" + ta[0], effects(meth["has_value"])))
+            defs.append(("src_opt_in_range_" + ta[0], effects(meth["in_range"])))
+            for nm, tag in CMPNAMES.items():
+                defs.append(("src_opt_%s_%s" % (tag, ta[0]), effects(fr[nm])))
+        finally:
+            CTX.update({"this": "", "obj": {}, "subst": {}, "decls": {}, "depth": 0})
+        seen.add(ta[0])
+    if seen != set(STD):
+        raise TranslationError("optional_base: translated for %s only" % sorted(seen))
     out = ["(* SrcExprs.v -- GENERATED on every run by harness/srcexprs.py from clang's typed AST of the CURRENT",
            "   /repo/sbepp/src/sbepp/sbepp.hpp.  Do not edit: SrcExprsProofs.v proves what these terms compute. *)",
            "From Coq Require Import ZArith String List.",
